@@ -120,6 +120,10 @@ type Nest struct {
 	Rot   [3]float64 `json:"rot"`
 	Scale float64    `json:"scale"`
 	Shift kit.V3     `json:"shift"`
+	// Stretch scales the axes of the construction (before the rotation) by factors >= 1 (0 means 1): an
+	// affine map, so the nesting is unchanged and every clearance only grows, but components become
+	// columns and slabs with children far from their centres.
+	Stretch [3]float64 `json:"stretch,omitempty"`
 }
 
 type shell struct {
@@ -159,9 +163,15 @@ func (n *Nest) xform() func(kit.V3) kit.V3 {
 	if s == 0 {
 		s = 1
 	}
+	st := n.Stretch
+	for k := range st {
+		if st[k] < 1 {
+			st[k] = 1
+		}
+	}
 	return func(p kit.V3) kit.V3 {
-		// Rz(a) Ry(b) Rx(c)
-		x, y, z := p[0], p[1], p[2]
+		// Rz(a) Ry(b) Rx(c) diag(stretch)
+		x, y, z := st[0]*p[0], st[1]*p[1], st[2]*p[2]
 		y, z = cc*y-sc*z, sc*y+cc*z
 		x, z = cb*x+sb*z, -sb*x+cb*z
 		x, y = ca*x-sa*y, sa*x+ca*y
@@ -349,6 +359,10 @@ func genNest(t *rapid.T, maxNodes, maxDepth int, allowBig bool) *Nest {
 	}
 	n.Scale = gen.LogF(t, 0.3, 30, "scale")
 	n.Shift = gen.Vec3(t, 5, "shift")
+	if gen.Int(t, 0, 2, "stretched") == 0 {
+		n.Stretch = [3]float64{1, 1, 1}
+		n.Stretch[gen.Int(t, 0, 2, "stretchaxis")] = gen.LogF(t, 3, 40, "stretch")
+	}
 	return n
 }
 
